@@ -59,12 +59,14 @@ def run(ctx):
                 par = dict(zip(ids, f['parents']))
                 leaves = [i for i in ids if i not in set(f['parents']) and par[i] >= 0]
                 ign = [int(v) for v in rng.choice(leaves, size=int(rng.integers(0, min(3, len(leaves)) + 1)), replace=False)] if leaves and rng.random() < 0.4 else []
-                p = dict(method=method, to_ignore=ign)
+                mts = [None, None, 2, 3, 4][int(rng.integers(5))]
+                p = dict(method=method, to_ignore=ign, min_twig_size=mts)
                 desc.update(params=p)
                 x = F.mk_neuron(f)
-                st, res = guarded(lambda: col(navis.strahler_index(x.copy(), method=method, to_ignore=list(ign), min_twig_size=None), 'strahler_index'))
+                st, res = guarded(lambda: col(navis.strahler_index(x.copy(), method=method, to_ignore=list(ign), min_twig_size=mts), 'strahler_index'))
                 jobs.append(dict(desc=desc, nt=nt, key=(str(ids), str(f['parents']), kind, str(p)),
-                                 exprs=['strahler_all %s %s %s' % (term(method == 'greedy'), term(ign), T)],
+                                 exprs=['strahler_all_mts %s %s %d%%nat %s' % (term(method == 'greedy'), term(ign), mts or 0, T),
+                                        'short_twig_leaves %s %d%%nat' % (T, mts or 0)],
                                  cmp=_cmp_strahler(st, res, f, ign)))
             elif kind in ('sfc', 'bending'):
                 skind = str(rng.choice(['mixed', 'mixed', 'mixed', 'nopre', 'nopost']))
@@ -98,7 +100,9 @@ def run(ctx):
                 desc.update(params={})
                 st, res = guarded(lambda: col(_lf(navis, x), 'flow_centrality'))
                 jobs.append(dict(desc=desc, nt=nt, key=(str(ids), str(f['parents']), kind),
-                                 exprs=['leaf_flow %s' % T], cmp=_cmp_leafflow(st, res, f)))
+                                 exprs=['leaf_flow %s' % T, 'leaf_flow_impl false %s' % T, 'leaf_flow_impl true %s' % T,
+                                        'map (fun r => (rid r, leaf_raw_impl false %s (rid r))) %s' % (T, T), 'map (fun r => (rid r, leaf_raw_impl true %s (rid r))) %s' % (T, T)],
+                                 cmp=_cmp_leafflow(st, res, f)))
             else:
                 # segregation index, tortuosity, segment_analysis: numeric checks on outputs
                 x = F.mk_neuron(f)
@@ -201,31 +205,34 @@ def _cmp_leafflow(st, res, f):
         bad = [i for i, v in model.items() if res.get(i) != v]
         if not bad:
             return
-        # known: the implementation evaluates the tip-to-tip count at branch points only, so terminal segments
-        # (and branch points whose children are terminal) report 0
-        par = dict(zip(f['ids'], f['parents']))
-        nch = {}
-        for p in f['parents']:
-            nch[p] = nch.get(p, 0) + 1
-        def terminal(i):
-            # i lies on a segment that starts at a leaf: walking down unique children reaches a leaf without passing a branch
-            while nch.get(i, 0) == 1:
-                i = [c for c in f['ids'] if par[c] == i][0]
-            return nch.get(i, 0) == 0
-        key = 'C17:leaf-flow-terminal-segments' if all(terminal(i) or nch.get(i, 0) >= 2 for i in bad) else None
-        if key is None and sum(1 for p in f['parents'] if p < 0) > 1:
+        # known findings, keyed EXACTLY: the implementation's values equal the executable variant model/Flow.v leaf_flow_impl
+        # (terminal segments report 0; with several fragments the tips of all fragments are used as the total)
+        # at a root with several children the implementation reports the value copied along ONE of the segments ending there
+        kids = {}
+        for i_, p_ in zip(f['ids'], f['parents']):
+            kids.setdefault(p_, []).append(i_)
+        broots = [i_ for i_, p_ in zip(f['ids'], f['parents']) if p_ < 0 and len(kids.get(i_, [])) >= 2]
+        def agrees(var, raw):
+            var = {int(a): int(b) for a, b in var}
+            raw = {int(a): int(b) for a, b in raw}
+            return all((res.get(i) in set(raw[c] for c in kids[i])) if i in broots else (res.get(i) == v) for i, v in var.items())
+        key = None
+        if agrees(r[1], r[3]):
+            key = 'C17:leaf-flow-terminal-segments'
+        elif sum(1 for p in f['parents'] if p < 0) > 1 and agrees(r[2], r[4]):
             key = 'C17:leaf-flow-forest-global-total'
         ctx.violation('flow_centrality differs from the tip-to-tip path count', desc,
                       dict(first=[(i, res.get(i), model[i]) for i in bad[:6]], n=len(bad)), key=key)
     return cmp
 
 
-def _cmp_strahler(st, res, f, ign):
+def _cmp_strahler(st, res, f, ign_given):
     def cmp(ctx, desc, r):
         if st != 'ok':
             ctx.violation('strahler_index raised', desc, res)
             return
         model = {int(a): int(b) for a, b in r[0]}
+        ign = list(ign_given) + [int(v) for v in r[1]]      # min_twig_size adds the leaves of too-short twigs
         bad = [i for i, v in model.items() if res.get(i) != v]
         if not bad:
             return
